@@ -21,8 +21,7 @@ from props import extlib
 ERRMAP = dict(extlib.ERRMAP, MissingExtensionError='EMissingExt', HeaderDataError='EHeaderData')
 
 # signatures of the known image-level findings (see known-findings.txt / DESIGN.md section 7)
-SIG_N6 = 'imgmerge/slice-dims-differ/HeaderDataError'
-SIG_N7 = 'imgmerge/ext-sdim-kept-when-header-slice-erased'
+SIG_N8 = 'imgmerge/ext-sdim-kept-when-header-slice-erased'      # open: property=C07
 
 # ------------------------------------------------------------------------------------------ implementation side
 
@@ -263,14 +262,14 @@ def mk_I(rng, shape, aff, sl, base):
     return {'shape': list(shape), 'data': gen_data(rng, shape, base), 'aff': aff, 'slice': sl, 'dtype': rng.choice(['int16', 'int32'])}
 
 
-def gen_ext_for(rng, shape, sl, aff):
+def gen_ext_for(rng, shape, sl, aff, keys=True):
     """None (make_empty: slice_dim := header's), or an explicit empty extension whose slice_dim / affine may differ
     from the image's, or a key-carrying one (only outside the regions of the open extension-level findings)."""
     r = rng.random()
     if r < 0.5:
         return None
     trailing = len(shape) > 3 and shape[-1] == 1
-    if r < 0.75 or trailing:
+    if r < 0.75 or trailing or not keys:
         sd = rng.choice([0, 1, 2, None, sl, sl])
         return extlib.mk_E(shape, sd, aff if rng.random() < 0.7 else extlib.gen_affine(rng), {})
     sd = sl if (sl is not None and rng.random() < 0.7) else rng.choice([0, 1, 2])
@@ -285,7 +284,10 @@ def pick_merge_shape(rng, dim):
         nd = rng.choice([3, 3, 4, 5])
         return gen_img_shape(rng, nd, singular=3, trailing=False)
     nd = rng.choice([3, 4, 4, 5])
-    return gen_img_shape(rng, nd, singular=4, trailing=(nd == 4 and rng.random() < 0.2))
+    sh = gen_img_shape(rng, nd, singular=4)
+    if nd == 4 and sh[3] == 1 and rng.random() < 0.9:       # (X,Y,Z,1) along dim 4 is the open finding N1: keep it rare
+        sh[3] = rng.randint(2, 3)
+    return sh
 
 
 def gen_merge_ok(rng, dim=None, n=None, with_keys=False):
@@ -325,7 +327,9 @@ def gen_merge_ok(rng, dim=None, n=None, with_keys=False):
         sl = ec['exts'][0]['sdim'] if rng.random() < 0.8 else sl
         kind += '/keys'
     else:
-        exts = [gen_ext_for(rng, sh, sl, affs[i]) if rng.random() < 0.5 else None for i in range(n)]
+        # (key-carrying extensions only as consistent sets from extlib.gen_merge_case: a lone one next to empty extensions
+        #  is the region of the open extension-level findings N3 / N4)
+        exts = [gen_ext_for(rng, sh, sl, affs[i], keys=False) if rng.random() < 0.5 else None for i in range(n)]
     ws = [{'img': mk_I(rng, sh, affs[i], sl, 1000 * i), 'ext': exts[i]} for i in range(n)]
     return {'kind': kind, 'ws': ws, 'dim': dim}
 
@@ -624,6 +628,8 @@ def oracle_merge(case, obs):
         return None if obs.get('err') == 'EValue' else \
             'orientation differs / positions not increasing along the merge axis: expected ValueError, got %r' % (obs.get('exc') or 'a result')
     if 'err' in obs:
+        if not all(consistent(W, X) for W, X in zip(ws, obs['in_exts'])):
+            return None                               # an extension that contradicts its image may legitimately fail to merge
         return 'mergeable sequence: from_sequence(dim=%r) raised %s: %s' % (case['dim'], obs.get('exc'), obs.get('msg'))
     R = obs['res']
     rsh = merged_shape(sh, dim, n)
@@ -662,14 +668,11 @@ def oracle_merge(case, obs):
 
 def sig_merge(case, obs, msg):
     ws = case['ws']
-    if obs.get('exc') == 'HeaderDataError':
-        sls = [W['img']['slice'] for W in ws]
-        if all(s is not None for s in sls) and len(set(sls)) > 1:
-            return SIG_N6
-    if msg and msg.startswith('C07: extension slice_dim') and obs['res']['slice'] is None:
-        return SIG_N7
+    if msg and msg.startswith('C07: extension slice_dim') and obs['res']['slice'] is None and obs['in_exts'][0]['sdim'] is not None:
+        return SIG_N8
     if 'err' in obs and 'in_exts' in obs:
-        s = extlib.finding_sig_merge({'exts': obs['in_exts'], 'dim': case['dim'] if case['dim'] is not None else -1, 'sdim_arg': None}, obs)
+        dim = case['dim'] if case['dim'] is not None else default_merge_dim(ws[0]['img']['shape'])
+        s = extlib.finding_sig_merge({'exts': obs['in_exts'], 'dim': -1 if dim is None else dim, 'sdim_arg': None}, obs)
         if s:
             return s
     return 'imgmerge/%s/%s' % (case.get('kind', '?').split('/')[1] if '/' in case.get('kind', '') else '?',
